@@ -6,10 +6,17 @@
    Part B  the parser never looks at token positions:
              parse_strip : parse g o (strip ts) = erase_result (parse g o ts)
    Part C  the glue: for EVERY token list with a spelling and EVERY good layout, parsing the rendered
-           text gives what parsing the tokens gives, up to locations (text_tokens); with the token-level
-           round trip of Parse/ParseProofs.v: text_roundtrip, whitespace_irrelevant,
-           redundant_parentheses_text; the unrestricted white-space statement is refuted
-           (`1 not<TAB>in [1]`, known finding C11-notin-spacing). *)
+           text gives what parsing the tokens gives, up to locations (text_tokens; text_items for arbitrary
+           spellings); with the token-level round trip of Parse/ParseProofs.v: text_roundtrip,
+           whitespace_irrelevant, redundant_parentheses_text; roomy_good: white space between all tokens
+           (U+0020 inside and after `not in`) is a good layout.
+   Part D  every token the printer emits for a `tree_textable` tree has a spelling, and `not` is never
+           directly followed by `in` (textable_tokens), whatever the parentheses.
+   Part E  the theorems in their final form (hypotheses: printable, tree_textable, white) and, for the
+           pinned tables, the refutation of the unrestricted white-space statement (`1 not<TAB>in [ 1 ]`,
+           known finding C11-notin-spacing) with the partial theorem under the decidable carve-out
+           `notin_spaced`.
+   All statements about trees are up to node locations (`erase_loc`). *)
 From Coq Require Import ZArith Bool List String Ascii Floats Lia.
 Require Import X.Base.Num X.Base.Value X.Syn.Ast X.Syn.Tok X.Lex.Lexer X.Lex.LexProofs.
 Require Import X.Parse.Parser X.Parse.Printer X.Parse.ParseProofs X.gen.GenGrammar X.Corr.CorrC11 X.Bridge.BrC11 X.Parse.Render.
@@ -936,7 +943,7 @@ Section Text.
   Qed.
 End Text.
 
-(* ================================================================== Part E: every token the printer emits has a spelling *)
+(* ================================================================== Part D: every token the printer emits has a spelling *)
 Section ExprInd.
   Variable P : expr -> Prop.
   Hypothesis H : forall e, Forall P (children e) -> P e.
@@ -1139,7 +1146,7 @@ Section TreeTokens.
   Qed.
 End TreeTokens.
 
-(* ================================================================== Part D: the theorems in their final form *)
+(* ================================================================== Part E: the theorems in their final form; what is NOT true *)
 Section Final.
   Variables uni_letter uni_digit uni_space : Z -> bool.
   Variable g : grammar.
